@@ -405,7 +405,9 @@ def replay_files(shape, cards, code):
 
 
 NAME_SETS = [['Root', '64', '1e3', 'Inf'], ['nan', '8', '17', '0'], ['-1', '1.5', '+2', '1_0'], ['True', 'False', 'None', 'null'],
-             ['lib.core', 'lib', 'a.b.c', 'org'], ['0x10', '1e', 'e1', 'infinity']]
+             ['lib.core', 'lib', 'a.b.c', 'org'], ['0x10', '1e', 'e1', 'infinity'],
+             # qualified names whose parts need quoting (blank, leading digit, reserved word) next to parts that do not
+             ['Root', 'a b.c d', 'x.y', 'pay gate.card rd'], ['R', 'a.b c', '1x.y', 'q'], ['pkg.features', 'or.and', 'x.1', 'a.b.c d.e']]
 
 
 def replay_names(names):
@@ -453,7 +455,8 @@ def replay_names(names):
         xmlable = all(c07.xml_ok(x) and '\t' not in x for x in names)      # attribute-value normalisation turns tabs into blanks
         if xmlable:
             check('featureide', via_fide)
-        if not any(ch in x for x in names for ch in '".\r\n') and not any(len(x) >= 2 and x[0] == "'" and x[-1] == "'" for x in names):
+        if (not any(ch in x for x in names for ch in '"\r\n') and all(part != '' for x in names for part in x.split('.'))
+                and not any(len(part) >= 2 and part[0] == "'" and part[-1] == "'" for x in names for part in x.split('.'))):
             check('uvl', via_uvl)
         if xmlable:
             save = expect[:]
